@@ -2,6 +2,7 @@ import Bifrost.Model.Pubsub
 import Bifrost.Lemmas.PubsubNet
 import Bifrost.Lemmas.PubsubReach
 import Bifrost.Lemmas.PubsubTerm
+import Bifrost.Lemmas.PubsubReplace
 /-!
 C28 — Floodsub delivers each message once to every reachable subscriber.
 Network model `Bifrost.Pubsub.Net` (one step = one critical section of floodsub after
@@ -237,5 +238,70 @@ example : [Ev.fwd 0, .recv 0, .fwd 1, .recv 0, .fwd 2].length ≤
     exact ⟨by decide, by decide⟩
   · refine .fwd _ 0 _ (by decide) (.recv _ 0 _ (by decide) (.fwd _ 1 _ (by decide) (.recv _ 0 _ (by decide)
       (.fwd _ 2 _ (by decide) (.nil _)))))
+
+/-! ### `execPublish` while a session of the target tuple is registered but not started
+(`Pubsub.Replace`: a tuple connected again over its live session keeps its announcements) -/
+
+/-- The Execute loop never dereferences the context of an unstarted session: no history of
+`AddPeerStream` / session start / announcements / accepted messages / session end makes the fixed
+`execPublish` panic. -/
+theorem replace_never_panics (cap : Nat) (evs : List Replace.Ev) :
+    (Replace.run { cap := cap } evs).panicked = false := by
+  rw [Replace.run_panicked]
+
+/-- ... which the code before the fix did (refuted variant, witness replayed on the real router by
+the engine): session started and announced, the tuple is connected again, a message is served. -/
+theorem replace_pre_panics :
+    (Replace.runPre { cap := 32 } [.add, .start, .announce true, .add, .publish 7]).panicked = true := by decide
+
+/-- A message served while the new session is registered but not started is queued to it (when
+there is room for it and the initial set) and is still there, in front of the initial set, when
+`Execute` starts the session: it reaches the peer over the new stream. -/
+theorem replace_unstarted_publish_queued (s : Replace.State) (x : Replace.Sess) (id : Nat)
+    (hcur : s.cur = some x) (hx : x.started = false) (hann : s.announced = true) (hp : s.panicked = false)
+    (hroom : x.queue.length + 1 < s.cap) :
+    (Replace.step (Replace.step s (.publish id)) .start).cur = some { started := true, queue := x.queue ++ [id] ++ [0] } ∧
+    (Replace.step (Replace.step s (.publish id)) .start).blockedInit = s.blockedInit ∧
+    (Replace.step s (.publish id)).skipped = s.skipped := by
+  simp [Replace.step, Replace.write, hcur, hx, hann, hp, hroom]
+
+/-- The send of the initial subscription set in `Execute` (an unguarded channel send under
+`m.mtx`) never finds the queue of the session it starts full, whatever was served before: the
+fixed `writePacket` cannot dead-lock the loop. -/
+theorem replace_start_never_blocks (cap : Nat) (hc : 0 < cap) (evs : List Replace.Ev) :
+    (Replace.run { cap := cap } evs).blockedInit = false := by
+  suffices h : ∀ (evs : List Replace.Ev) (s : Replace.State), 0 < s.cap → Replace.Room s → s.blockedInit = false →
+      (Replace.run s evs).blockedInit = false by
+    exact h evs { cap := cap } hc (by intro x hx; simp at hx) rfl
+  intro evs
+  induction evs with
+  | nil => intro s _ _ hb; exact hb
+  | cons ev evs ih =>
+    intro s hc hr hb
+    have hc' : 0 < (Replace.step s ev).cap := by rw [Replace.step_cap]; exact hc
+    apply ih (Replace.step s ev) hc' (Replace.step_room s ev hc hr)
+    cases ev <;> simp only [Replace.step] <;> try exact hb
+    · cases hcur : s.cur with
+      | none => exact hb
+      | some x =>
+        by_cases hx : x.started
+        · simp [hx, hb]
+        · have := hr x hcur (by simpa using hx)
+          simp [hx, hb, this]
+    · by_cases h : (s.panicked || !s.announced) = true
+      · simp [h, hb]
+      · simp only [h]
+        cases hcur : s.cur with
+        | none => exact hb
+        | some x => exact hb
+    · cases hcur : s.cur with
+      | none => exact hb
+      | some x => by_cases hx : x.started <;> simp [hx, hb]
+
+/-- Non-vacuity: the witness history on the fixed code — no panic, the message waits in the new
+session's queue in front of the initial set. -/
+example : (Replace.run { cap := 32 } [.add, .start, .announce true, .take, .add, .publish 7, .start]).cur =
+    some { started := true, queue := [7, 0] } ∧
+    (Replace.run { cap := 32 } [.add, .start, .announce true, .take, .add, .publish 7, .start]).panicked = false := by decide
 
 end Bifrost.Props.C28
